@@ -306,6 +306,48 @@ def check_isaac(chk, crate, core_ident, w, init_def):
                ok5, "", where=body["span"][0])
 
 
+
+TRAIT_NAMES = {"from_seed", "seed_from_u64", "from_rng", "try_from_rng", "next_u32", "next_u64", "fill_bytes", "try_next_u32",
+               "try_next_u64", "try_fill_bytes"}
+
+
+def check_no_shadowing(chk, crates):
+    """R8: an inherent associated function wins path resolution over a trait method of the same name, so `Type::from_rng(..)`
+    (also `Self::from_rng` inside the seeding macros) would silently reach it instead of the analysed trait method"""
+    n = 0
+    for crate in crates:
+        for a in crate.facts["adts"]:
+            impls = crate.impls_of(a["path"])
+            if not any(im.get("trait") in (SEEDABLE, RNGCORE) for im in impls):
+                continue
+            n += 1
+            shadow = sorted((m, k) for im in impls if im.get("trait") is None for m, k in im["methods"].items() if m in TRAIT_NAMES)
+            bad = []
+            for m, k in shadow:
+                # harmless if it is the trait method under another path: the same value and effects on the same symbolic arguments
+                tk = next((im["methods"][m] for im in impls if im.get("trait") in (SEEDABLE, RNGCORE) and m in im["methods"]), None)
+                same = False
+                if tk is not None and crate.bodies[k]["argc"] == crate.bodies[tk]["argc"]:
+                    try:
+                        outs = []
+                        for key_ in (k, tk):
+                            ev_ = crate.evaluator(max_steps=2000000)
+                            st_ = State()
+                            args_, objs_ = symbolic_args(ev_, st_, crate.bodies[tk])
+                            r_ = ev_.call_body(st_, key_, args_)
+                            outs.append((r_, [st_.objs[o] for o in objs_.values()], st_.world))
+                        same = same_value(outs[0][0], outs[1][0]) and all(same_value(x, y) for x, y in zip(outs[0][1], outs[1][1])) \
+                            and outs[0][2] is outs[1][2]
+                    except (Unsupported, SymbolicLoop, Diverged, KeyError):
+                        same = False
+                if not same:
+                    bad.append(m)
+            chk.ob("R8", "%s|no inherent function shadows a SeedableRng / RngCore method (other than by forwarding to it)" % a["path"].split("::")[-1],
+                   not bad, "inherent functions named %s take precedence over the trait methods in path calls and differ from them" % bad,
+                   nontrivial=bool(shadow))
+    return n
+
+
 def run(chk, tier):
     xo = Crate("rand_xoshiro")
     chk.config(xo.config)
@@ -326,6 +368,8 @@ def run(chk, tier):
     check_not_overridden(chk, hc, hc.adt_by_ident("Hc128Rng")["path"], "Hc128Rng", ["seed_from_u64"])
     check_not_overridden(chk, hc, hc.adt_by_ident("Hc128Core")["path"], "Hc128Core", ["seed_from_u64", "from_rng", "try_from_rng"])
     check_wrapper(chk, hc, "Hc128Rng", "BlockRng", ["from_seed", "from_rng", "try_from_rng"])
+    ngen = check_no_shadowing(chk, [xo, xs, hc, isaac])
+    chk.floor("R0", "generator types examined for shadowing", ngen, 20)
     check_wrapper(chk, isaac, "IsaacRng", "BlockRng", ["from_seed", "seed_from_u64", "from_rng", "try_from_rng"])
     check_wrapper(chk, isaac, "Isaac64Rng", "BlockRng64", ["from_seed", "seed_from_u64", "from_rng", "try_from_rng"])
     check_isaac(chk, isaac, "IsaacCore", 32, "rand_isaac::isaac::IsaacCore::init")
